@@ -45,6 +45,10 @@ UNITS2 = [
     ("{0}CC({1})CCl", "two_letter_side_chain"),
     ("{0}C([H])(CC){1}", "explicit_h_after_attachment_atom"),
     ("{0}C({1})(C)C[H]", "explicit_h_last"),
+    ("{0}C[C@H](C){1}", "propylene_stereo_a"),  # SI.md tacticity examples: bracket attachment atom with a stereo mark
+    ("{0}C[C@@H](C){1}", "propylene_stereo_b"),
+    ("{0}[C@H](C)C{1}", "stereo_attachment_first"),
+    ("{0}C[C@](C)(CC){1}", "stereo_quaternary"),
 ]
 # explicit [H] written before an attachment atom: the tokenizer's atom index is shifted (known finding F-explicit-H-index)
 UNITS2_HSHIFT = [("{0}C([H])C{1}", "explicit_h_before_attachment_atom"), ("{0}C([H])([H])CC{1}", "two_explicit_h_before_attachment_atom")]
@@ -625,6 +629,9 @@ CORPUS = [
     "{[]CC([>])(C[<])C(=O)OCC(O)CSc1ccc(F)c(F)c1, CC([>])(C[<])C(=O)OCC(O)CSC(F)(F)F; [>][N][<]}|gauss(800, 100)|{[>][<]CC([>])c1ccccc1; [>]N, [<][H][]}|schulz_zimm(400, 300)|",
     "{[]CC([>])(C[<])C(=O)OCC(O)CSc1c(F)cccc1F, CC([>])(C[<])C(=O)OCC(O)CSC(F)(F)F; [>][H], [<][H][]}|gauss(800, 50)|",
     "{[][$|3 4 5 6 0 8|]C([$|4.0|])C=O,[$|6.0|]CC([$|10.1|])CO;[$][H], [$]O[]}|flory_schulz(2e-2)|",
+    "C{[>][<]C[C@H](C)[>][<]}|poisson(200)|[H]",
+    "C{[>][<|0 0 0 1|]C[C@H](C)[>|0 0 1 0|], [<|0 1 0 0|]C[C@@H](C)[>|1 0 0 0|] [<]}|poisson(200)|[H]",
+    "C{[>][<|3|]C[C@H](C)[>|3|], [<]C[C@@H](C)[>] [<]}|poisson(200)|[H]",
 ]
 
 
